@@ -263,14 +263,27 @@ func park(j *Job, phase int32) {
 	}
 }
 
+var jobArg [NKinds]string
+
+// LastJobArg returns the first string argument of the most recent job of
+// this kind (the tag name of a tagging job).
+//
 //go:norace
-func JobBegin(method string) *Job {
+func LastJobArg(kind int) string { return jobArg[kind] }
+
+//go:norace
+func JobBegin(method string, arg ...string) *Job {
 	if !active {
 		return nil
 	}
 	k := kindOf(method)
 	if k < 0 {
 		return nil
+	}
+	if len(arg) > 0 {
+		jobArg[k] = arg[0]
+	} else {
+		jobArg[k] = ""
 	}
 	r, w := RawPipe()
 	j := &Job{kind: k, rfd: r, wfd: w, active: true}
